@@ -59,6 +59,10 @@ func c13Rig(mode string, trace *hx.Log) *Rig { return c13RigMask(mode, trace, 7)
 // c13RigMask configures the tool / prompt / resource list filter iff bit 0 / 1 / 2 of mask is set.
 func c13RigMask(mode string, trace *hx.Log, mask int) *Rig {
 	toolF := func(ctx context.Context, tools []*mcp.Tool) []*mcp.Tool {
+		if k1, _ := ctx.Value(c13k1{}).(string); k1 == "nobody" {
+			var none []*mcp.Tool // a caller admitted to nothing: the usual "var out; append; return out" yields nil
+			return none
+		}
 		out := tools[:0] // filters in place: the list handed to a filter belongs to this request
 		for _, t := range tools {
 			if t.Name != "secret" || c13Visible(ctx) {
@@ -68,6 +72,10 @@ func c13RigMask(mode string, trace *hx.Log, mask int) *Rig {
 		return out
 	}
 	promptF := func(ctx context.Context, ps []*mcp.Prompt) []*mcp.Prompt {
+		if k1, _ := ctx.Value(c13k1{}).(string); k1 == "nobody" {
+			var none []*mcp.Prompt // a caller admitted to nothing: the usual "var out; append; return out" yields nil
+			return none
+		}
 		out := ps[:0] // filters in place: the list handed to a filter belongs to this request
 		for _, t := range ps {
 			if t.Name != "secret" || c13Visible(ctx) {
@@ -77,6 +85,10 @@ func c13RigMask(mode string, trace *hx.Log, mask int) *Rig {
 		return out
 	}
 	resF := func(ctx context.Context, rs []*mcp.Resource) []*mcp.Resource {
+		if k1, _ := ctx.Value(c13k1{}).(string); k1 == "nobody" {
+			var none []*mcp.Resource // a caller admitted to nothing: the usual "var out; append; return out" yields nil
+			return none
+		}
 		out := rs[:0] // filters in place: the list handed to a filter belongs to this request
 		for _, t := range rs {
 			if t.Name != "secret" || c13Visible(ctx) {
@@ -201,7 +213,7 @@ func c13Subsets(tier string, i int) CaseResult {
 	obs := &hx.Log{}
 	res := vsched.Run(vsched.Config{}, func() {
 		r := c13RigMask(mode, &hx.Log{}, mask)
-		for _, tok := range []string{"guest", "admin", "guest", "admin"} { // a restricted caller first: what it was denied must still be there for the next caller
+		for _, tok := range []string{"nobody", "guest", "admin", "guest", "nobody", "admin"} { // restricted callers first: what they were denied must still be there for the next caller
 			p := NewRawPeer(r)
 			p.P.Headers["X-Tok"] = tok
 			if err := p.Handshake(); err != nil {
@@ -216,6 +228,14 @@ func c13Subsets(tier string, i int) CaseResult {
 				}
 				hasSecret := strings.Contains(f, `"secret"`)
 				want := tok == "admin" || mask&(1<<k) == 0
+				if tok == "nobody" && mask&(1<<k) != 0 {
+					// the configured filter admits this caller to nothing at all
+					if hasSecret || strings.Contains(f, `"echo"`) {
+						viol = append(viol, V(fmt.Sprintf("filter-subset-nobody:%s:%s", mode, op), "%s asked by a caller the filter admits to nothing (it returns a nil list) is answered with entries: %s", op, truncate(f, 160)))
+					}
+					obs.Add("%s/%s=empty", tok, op)
+					continue
+				}
 				if !strings.Contains(f, `"echo"`) {
 					viol = append(viol, V("list-broken:"+mode+":"+op, "%s for %s does not list the public entry: %s", op, tok, truncate(f, 160)))
 				} else if hasSecret != want {
